@@ -93,4 +93,65 @@ def k3(ctx, kr):
     kr.functions = fn_paths(P, getattr(kr, '_enc', set()))
     kr.exhaustive = True
 
-KERNELS = [k2, k3]
+# ---------------------------------------------------------------------------------------------- K4 direct addresses: AddressAssignment::try_from never panics
+def _k4_job(job):
+    n, = job
+    ctx = _CTX; part = Part()
+    P = ctx.program()
+    key = P.impl_all.get(('AddressAssignment', 'TryFrom<str>', 'try_from')) or P.impl_all.get(('AddressAssignment', 'TryFrom<&str>', 'try_from'))
+    if not key: part.inconc('AddressAssignment::try_from not found'); return part
+    M = Machine(P); st = {}
+    def entry(M):
+        loc = M.fresh_bv('loc', 8); M.assume(z3.Or([loc == ord(c) for c in 'IQMiqm']))
+        size = M.fresh_bv('size', 8); M.assume(z3.Or([size == ord(c) for c in 'XBWDLxbwdl'] + [z3.And(z3.UGE(size, 48), z3.ULE(size, 57))]))
+        tail = []
+        for i in range(n):
+            b = M.fresh_bv('t%d' % i, 8); M.assume(z3.Or(z3.And(z3.UGE(b, 48), z3.ULE(b, 57)), b == 46)); tail.append(b)
+        st['bytes'] = [37, loc, size] + tail
+        return M.call_fn(key[0], [Ref(Cell(Str(list(st['bytes']))))])
+    def on_path(M, pr):
+        part.paths += 1
+        if pr.inconclusive: part.inconc(pr.inconclusive); return
+        part.nontrivial += 1
+        if not pr.panic:
+            if len(part.samples) < 1: part.samples.append({'text_bytes': n + 3, 'result': 'Ok' if pr.result.disc == 0 else 'Err'})
+            return
+        s = z3.Solver(); s.add(*pr.pc); part.queries += 1
+        # prefer a witness the lexer hands to this function as one DirectAddress token: digits only, no leading / trailing / double dot
+        s.push()
+        bs = st['bytes']
+        s.add(z3.And(z3.UGE(bs[-1], 48), z3.ULE(bs[-1], 57)))
+        for x, y in zip(bs[3:], bs[4:]): s.add(z3.Not(z3.And(x == 46, y == 46)))
+        r = s.check()
+        if r != z3.sat: s.pop(); r = s.check()
+        if r != z3.sat: return
+        text = bytes(x if isinstance(x, int) else s.model().eval(x, True).as_long() for x in bs).decode()
+        kind = re.sub(r'[^a-z]+', '-', pr.panic.msg.lower())[:50].strip('-')
+        part.add('C04/K4/direct-address/' + kind, 'AddressAssignment::try_from panics on %r: %s' % (text, pr.panic.msg[:80]), {'text': text}, ('direct_address', (text,)))
+    M.explore(entry, on_path, max_paths=4000)
+    part.queries += M.stats['smt']; part.encoded = set(M.encoded); part.models = set(M.models_used)
+    return part
+
+@replay_factory('direct_address')
+def _replay_direct_address(text):
+    def rp(ctx):
+        src = 'PROGRAM p\nVAR\n  v AT %s : BOOL;\nEND_VAR\nEND_PROGRAM\n' % text
+        r = ctx.replay({'cmd': 'parse', 'source': src})
+        return 'panic' in r, {'source': src, 'result': {k: str(v)[:200] for k, v in r.items() if k != 'debug'}}
+    return rp
+
+@kernel('K4 dsl.direct_address_no_panic')
+def k4(ctx, kr):
+    global _CTX
+    _CTX = ctx
+    ns = [1, 3, 5] if ctx.tier == 'quick' else [1, 2, 3, 4, 5, 6, 7]
+    ns = ns + [11, 12]            # long enough for a component that does not fit u32 (10 digits)
+    kr.bounds = 'texts %%<I|Q|M><X|B|W|D|L|digit><tail>, any letter case, tail of %s symbolic characters over digits and "."; regex::Regex by contract with the patterns read from the MIR' % ns
+    for part in par_map(_k4_job, [(n,) for n in sorted(ns, reverse=True)]): merge_part(kr, part)
+    P = ctx.program()
+    kr.functions = fn_paths(P, getattr(kr, '_enc', set()))
+    kr.assumptions = ['regex::Regex::{new,captures} and Captures indexing by contract (leftmost-first backtracking matcher over ASCII subjects; indexing a group that did not participate panics)', 'lazy_static Lazy::get = evaluate the initialiser']
+    kr.exhaustive = True
+    kr.outside = ['non-ASCII subjects (the regex crate is Unicode-aware); longer addresses']
+
+KERNELS = [k2, k3, k4]
